@@ -100,7 +100,7 @@ ARG_POOL = (
 
 ODD_FIELD_NAMES = ("items", "keys", "values", "copy", "update", "get", "pop",
                    "count", "index", "class", "from", "None", "type", "format",
-                   "real", "fields", "errors", "path", "node", "args")
+                   "real", "fields", "errors", "path", "node")
 
 BEHAVIOURS = ("sync", "default", "async", "awaitable", "nested", "gen",
               "rtapi", "shared", "tdefault")
